@@ -105,14 +105,14 @@ class RunRecorder:
         return {"ev": "Ev", "etype": et}
 
     # ---- driving
-    def run_step(self, plan, step, config, tracked=True, batch=1, **kw):
+    def run_step(self, plan, step, config, tracked=True, batch=1, strict=False, **kw):
         cfg = EnOptConfig.model_validate(config, context=kw.get("transforms"))
         self.mask = None if cfg.variables.mask is None else np.asarray(cfg.variables.mask)
         self.R = cfg.realizations.weights.size
         self.events.append({"ev": "Run", "R": int(self.R), "P": int(cfg.gradient.number_of_perturbations),
                             "minsucc": int(cfg.realizations.realization_min_success),
                             "maxfun": int(cfg.optimizer.max_functions or 0), "nfixed": 0 if self.mask is None else int((~self.mask).sum()),
-                            "batch": int(batch), "tracked": bool(tracked), "meta": int((kw.get("metadata") or {}).get("tag", -1))})
+                            "batch": int(batch), "tracked": bool(tracked), "strict": bool(strict), "meta": int((kw.get("metadata") or {}).get("tag", -1))})
         try:
             code = plan.run_step(step, config=config, **kw)
             self.events.append({"ev": "Exit", "code": exit_name(code)})
